@@ -178,14 +178,26 @@ def path(c, job):
             # type is run through the real function (exhaustive enumeration, said so) against the bit-serial reference
             m._crc7_table = real_table
             bad = []
-            for T in (bytes, bytearray, tuple):
+            import array
+
+            def mv(x):  # a writable view on a receive buffer (a slice that drops trailing bytes)
+                return memoryview(bytearray(list(x) + [0xEE, 0xEE]))[:-2]
+
+            def mvro(x):
+                return memoryview(bytes(x))
+
+            def arr(x):
+                return array.array("B", x)
+
+            mv.__name__, mvro.__name__, arr.__name__ = "memoryview(bytearray)", "memoryview(bytes)", "array('B')"
+            for T in (bytes, bytearray, tuple, mv, mvro, arr):
                 for a in range(256):
                     if _call(m.crc7, T([a])) != ref_crc([a]):
                         bad.append((T.__name__, [a]))
                     for b in ((0, 1, 0x30, 0x91, 0xFF, a) if job.get("light") else range(256)):
                         if _call(m.crc7, T([a, b])) != ref_crc([a, b]):
                             bad.append((T.__name__, [a, b]))
-                if _call(m.crc7, T()) != 0 or _call(m.crc7, list(T())) != 0:
+                if _call(m.crc7, T([])) != 0 or _call(m.crc7, list(T([]))) != 0:
                     bad.append((T.__name__, []))
                 for msg in ([0x30] * 5, [0] * 9 + [7], list(range(40)), [0x30, 0x30, 1, 2, 3, 0x30]):
                     if _call(m.crc7, T(msg)) != ref_crc(msg):
